@@ -5,6 +5,9 @@
     the needed size only when alloc is too small), mpz/clear.c (free with the current alloc).
   Every allocation event goes through a ledger of live blocks with their sizes: that is the contract of
   mp_set_memory_functions (realloc/free receive the exact current size).
+  Slot table: `objs[k]? = none` — no such slot; `some none` — not initialised / cleared; `some (some o)` — live.
+  Operations on slots that do not exist, init of a live slot and realloc2/set/clear of a dead slot are ignored.
+  Invariant and theorems: MpirProofs/Lemmas/Life.lean, MpirProofs/Props/C04.lean.
 -/
 import Mpir.Base
 namespace Mpir.Life
@@ -57,14 +60,14 @@ def reallocObj (s : State) (k : Nat) (o : Obj) (newAlloc : Nat) : State :=
 
 def step (s : State) : Op → State
   | .init k =>
-      match getObj s k with
-      | some _ => s                          -- double init is outside the API contract: ignored by the model
-      | none => let (s1, b) := ledgerAlloc s 1; setObj s1 k (some { alloc := 1, val := 0, blk := b })
+      match s.objs[k]? with
+      | some none => let (s1, b) := ledgerAlloc s 1; setObj s1 k (some { alloc := 1, val := 0, blk := b })
+      | _ => s          -- no such slot, or double init (outside the API contract): ignored by the model
   | .init2 k bits =>
-      match getObj s k with
-      | some _ => s
-      | none => let n := bitsToLimbs bits
-                let (s1, b) := ledgerAlloc s n; setObj s1 k (some { alloc := n, val := 0, blk := b })
+      match s.objs[k]? with
+      | some none => let n := bitsToLimbs bits
+                     let (s1, b) := ledgerAlloc s n; setObj s1 k (some { alloc := n, val := 0, blk := b })
+      | _ => s
   | .realloc2 k bits =>
       match getObj s k with
       | none => s
